@@ -256,7 +256,8 @@ def check_literals(ck, gvh, oracle, tier, st):
         post = b")" if pre.endswith(b"(") else rng.choice([b"", b"\n", b" ", b";", b" --e"])
         c["chunk"] = pre + c["src"] + post
         lines.append("l%d %s chunk=chunk" % (i, hexsrc(c["chunk"])))
-    out = vlib.run_lines_resilient(gvh, ["lua"], lines, per_case_timeout=30)
+    from lib.props import C12 as A
+    out = A.lua_batched(gvh, lines)
     # the Coq model of integer numerals (S and IM) on the same spellings
     ol, oidx = [], []
     for i, c in enumerate(cases):
